@@ -9,6 +9,9 @@ G3  per source-frequency pair: gfield = Re(bfield * s mu0 * efield) on the efiel
     accumulated over all pairs.
 R1/R2 (c07_pos.py)  the forward responses are sampled at receiver.coordinates_abs(source) -- the positions the adjoint sources are placed at
     (_get_rfield clause) -- for absolute and source-relative receivers and any source (closed loops included).
+S1/S2 (c07_resp.py)  Simulation._get_responses: the datum in receiver slot i is the response of receiver i itself (field of its own type, its own
+    coordinates_abs, the simulation's interpolation; stored or given electric field) for electric and magnetic receivers listed in any order;
+    survey data and stored fields are left as they were.
 Not covered: the two solves, finite-difference convergence order (bounded concrete check only).
 """
 import ast
@@ -406,7 +409,7 @@ def task_concrete():
     tier = os.environ.get('VERIF_TIER', 'quick')
     r = ob.guarded(c07_concrete.check, tier, seed)
     col.concrete('gradient_vs_finite_differences_of_the_misfit', r['reproduced'] is False, r,
-                 bounded='8x8x8 stretched grid; 2 electric dipoles with absolute receivers and closed wire loop + magnetic dipole + electric dipole with absolute and source-relative receivers; 1..2 frequencies, isotropic / VTI (thorough: all four cases), three (thorough: five) mappings, electric + magnetic receivers, NaN datum; 2 (quick) / 6 (thorough) random directions, central differences at two step sizes; synthetic data sampled at the absolute receiver positions (12 source-receiver pairs)',
+                 bounded='8x8x8 stretched grid; 2 electric dipoles with absolute receivers and closed wire loop + magnetic dipole + electric dipole with absolute and source-relative receivers; 1..2 frequencies, isotropic / VTI (thorough: all four cases), three (thorough: five) mappings, electric + magnetic receivers, NaN datum; 2 (quick) / 6 (thorough) random directions, central differences at two step sizes; synthetic data sampled at the absolute receiver positions (12 source-receiver pairs); slot correspondence of the data with receivers listed magnetic, electric, electric, magnetic, electric (2 sources x 2 frequencies, stored and given field: 40 data)',
                  cases=r.get('cases', 0))
     return col.pack()
 
@@ -415,6 +418,7 @@ def tasks(tier):
     t = [('contracts.c07', 'task_rfield', {}), ('contracts.c07', 'task_edges_to_vol', {}), ('contracts.c07', 'task_spec_derivative', {}), ('contracts.c07', 'task_concrete', {})]
     t += [('contracts.c07', 'task_gradient_assembly', dict(case=c)) for c in ('isotropic', 'HTI', 'VTI', 'triaxial')]
     t += [('contracts.c07_pos', 'task_receiver_positions', {}), ('contracts.c07_pos', 'task_coordinates_abs', {})]
+    t += [('contracts.c07_resp', 'task_get_responses', {})]
     from . import c14
     t += [('contracts.c14', 'task_map', dict(cls=c)) for c in c14.MAPS]        # chain factor (dependency closure)
     return t
@@ -422,7 +426,9 @@ def tasks(tier):
 
 LEVEL = ('Proof of the building blocks: interp_edges_to_vol_averages is the exact transpose of the eta-derivative of the C02 operator (accumulation rule, symbolic grid and cell); '
          'the gradient assembly uses per pair its own forward/back-propagated fields and a fresh buffer, accumulates every pair once, collects anisotropy rows according to the model aliasing and applies '
-         'the chain factor (C14) afterwards.  The adjoint-state formula itself follows with exact solves, symmetry (C02) and transposed sampling (C09) as a paper lemma.')
+         'the chain factor (C14) afterwards; the forward datum of slot i is the response of receiver i itself (type, absolute position, interpolation) for any order of electric and magnetic receivers.  The adjoint-state formula itself follows with exact solves, symmetry (C02) and transposed sampling (C09) as a paper lemma.')
 ASSUMPTIONS = ['edge fields handed to interp_edges_to_vol_averages have zero tangential boundary values (they are products with a PEC field)',
                'the two linear solves are exact (not covered); finite-difference agreement is checked only in the bounded concrete run',
-               'summaries of _bcompute / Field / derivative_chain as in C12']
+               'summaries of _bcompute / Field / derivative_chain as in C12',
+               '_get_responses: same-grid simulation (gridding="same", the property\'s configuration), fields in memory (file_dir None), the field of the pair has been computed; '
+               'fields.get_receiver / get_magnetic_field by their contracts (C09)']
